@@ -378,6 +378,11 @@ NoOverGeneration == kind = "chain" => \A c \in Chains :
                  Cardinality(rows[c]) <= gaps[c] + (IF \E x \in rows[c] : x.u > 0 THEN MaxN({x \in rows[c] : x.u > 0}) + 1 ELSE 0)
 Idempotent == (kind = "chain" /\ Len(hist) >= 2 /\ Ensures(LastCall) /\ Ensures(hist[Len(hist) - 1])
                /\ (hist[Len(hist) - 1].a = "ensure_all" \/ hist[Len(hist) - 1] = LastCall)) => ret = <<>>
+\* the key behind address n of chain c: account.public_key.child(c - 1).child(n) -- public derivation only; the owner's
+\* private route account.private_key.child(c - 1).child(n) must land on the same key (AddrKeyLaw)
+AddrKey(c, n) == CKDpub(CKDpub(Neuter(Root("master")), [h |-> 0, c |-> c - 1]), [h |-> 0, c |-> n])
+AddrKeyLaw == kind = "chain" => \A c \in Chains, n \in {0, 1} :
+                PubView(Along(Root("master"), <<[h |-> 0, c |-> c - 1], [h |-> 0, c |-> n]>>)) = NKey(AddrKey(c, n))
 RowsSeq(r) == [j \in 1..Cardinality(r) |-> (CHOOSE x \in r : x.n = j - 1).u]
 ChainCase == [kind |-> "chain", gaps |-> gaps, hist |-> hist, used |-> <<RowsSeq(rows[1]), RowsSeq(rows[2])>>, ret |-> ret]
 
@@ -392,6 +397,6 @@ Case == CASE kind = "tree" -> TreeCase [] kind = "b58" -> B58Case [] kind = "chk
           [] kind = "mnem" -> MnCase [] kind = "chain" -> ChainCase
 Emit == EMIT => PrintT(<<"CASE", ToJson(Case)>>)
 \* layout facts that do not depend on the case, printed once
-ASSUME EMIT => PrintT(<<"META", ToJson([addr |-> AddrFields, hmackey |-> MasterHmacKey, b58chars |-> B58CHARS,
+ASSUME EMIT => PrintT(<<"META", ToJson([addr |-> AddrFields, addrkey |-> Links(AddrKey(2, 1)), hmackey |-> MasterHmacKey, b58chars |-> B58CHARS,
                                         check |-> [n |-> 4, of |-> "H(H(payload))", at |-> "end"]])>>)
 =============================================================================
